@@ -1209,6 +1209,96 @@ def near_configs() -> List[Dict[str, Any]]:
             for m in ("at-once", "after-9.5s")]
 
 
+# ---------------------------------------------------------------------------
+# records are independent objects; one sweep removes EVERY expired session
+# ---------------------------------------------------------------------------
+RUN_MISC = "vf.checks.c19:run_misc"
+
+
+def run_misc(ctl: explorer.Ctl, cfg: Dict[str, Any]) -> Dict[str, Any]:
+    from chuk_mcp.protocol.messages.json_rpc_message import parse_message
+
+    viol: List[dict] = []
+
+    def bad(sig, msg):
+        viol.append({"sig": sig, "msg": msg})
+
+    with Seams() as sm_seams:
+        sm_seams.reset()
+        clock = sm_seams.clock
+        factory = _factory()
+        outcome = {"v": ""}
+
+        async def init(handler, with_info):
+            params: Dict[str, Any] = {"protocolVersion": "2025-06-18"}
+            if with_info:
+                params["clientInfo"] = {"name": "named"}
+                params["capabilities"] = {}
+            ret = await handler.handle_message(parse_message({"jsonrpc": "2.0", "id": 1, "method": "initialize", "params": params}), None)
+            return ret[1]
+
+        async def main():
+            if cfg["kind"] == "mass-expiry":
+                n = cfg["n"]
+                sm = factory().session_manager
+                old = [sm.create_session({"name": f"old{i}"}, "2025-06-18") for i in range(n)]
+                clock.now += 10.5
+                fresh = [sm.create_session({"name": f"fresh{i}"}, "2025-06-18") for i in range(2)]
+                got = sm.cleanup_expired(10)
+                left = [k for k in old if sm.get_session(k) is not None]
+                if got != n or left or sm.get_session_count() != 2 or any(sm.get_session(k) is None for k in fresh):
+                    bad({"class": "wrong-expiry", "detail": "expired-sessions-left-behind" if left else "other",
+                         "expired_in_one_sweep": "more-than-20" if n > 20 else "at-most-20"},
+                        f"{n} sessions idle for 10.5 s and 2 fresh ones: cleanup_expired(10) returned {got}, {len(left)} of the "
+                        f"expired sessions are still there, count {sm.get_session_count()}")
+                outcome["v"] = f"swept:{n}"
+                return
+            # independence of records
+            h1, h2 = factory(), factory()
+            sids = [(h1, await init(h1, False)), (h1, await init(h1, False)), (h2, await init(h2, False)), (h1, await init(h1, True))]
+            recs = [h.session_manager.get_session(s) for h, s in sids]
+            if any(r is None for r in recs):
+                raise core.HarnessError("initialize did not record a session")
+            field = cfg["field"]
+            before = [json.dumps(getattr(r, field), sort_keys=True, default=repr) for r in recs]
+            target = getattr(recs[cfg["which"]], field)
+            if not isinstance(target, dict):
+                outcome["v"] = f"{field}-not-a-dict"
+                return
+            target["written-by-the-application"] = True      # in place, through the public record object
+            after = [json.dumps(getattr(h.session_manager.get_session(s), field), sort_keys=True, default=repr) for h, s in sids]
+            for i, (b_, a) in enumerate(zip(before, after)):
+                if i != cfg["which"] and a != b_:
+                    bad({"class": "records-share-a-mutable-object", "field": field,
+                         "scope": "same-store" if sids[i][0] is sids[cfg["which"]][0] else "another-handler"},
+                        f"writing into {field} of record #{cfg['which']} changed record #{i}: {b_} -> {a}")
+            h3 = factory()
+            later = h3.session_manager.get_session(await init(h3, False))
+            if json.dumps(getattr(later, field), sort_keys=True, default=repr) != before[0]:
+                bad({"class": "records-share-a-mutable-object", "field": field, "scope": "a-later-initialize-on-a-new-handler"},
+                    f"after the write, a new handler's initialize without clientInfo records {field}={getattr(later, field)!r}, "
+                    f"before it recorded {before[0]}")
+            outcome["v"] = f"independent:{field}"
+            target.pop("written-by-the-application", None)   # whatever object that was, leave it as it was found
+
+        loop = new_loop(horizon=5)
+        status, val = loop.run_main(main())
+        errors = loop.collect_errors()
+        loop.abandon()
+    if status != "ok":
+        if isinstance(val, core.HarnessError):
+            raise val
+        raise core.HarnessError(f"misc {cfg} did not complete: {status} {val!r}")
+    if errors:
+        raise core.HarnessError(f"misc {cfg}: event loop reported {errors[:2]}")
+    return {"outcome": outcome["v"] + (":violation" if viol else ""), "violations": viol[:3]}
+
+
+def misc_configs() -> List[Dict[str, Any]]:
+    return [{"kind": "mass-expiry", "n": n} for n in (1, 19, 20, 21, 30, 100, 1000)] + \
+        [{"kind": "independence", "which": w, "field": f} for w in (0, 1, 2) for f in ("client_info", "metadata")]
+
+
 def run(tier: str, only=None) -> core.Result:
     res = core.Result("C19", "model_checking")
     depth = 5 if tier == "quick" else 6
@@ -1225,6 +1315,10 @@ def run(tier: str, only=None) -> core.Result:
     ncfgs = near_configs()
     outn = explorer.explore(RUN_NEAR, ncfgs)
     sched.absorb(res, "near-miss-session-ids", RUN_NEAR, outn, ncfgs, min_outcomes=1)
+    mcfgs = misc_configs()
+    outm = explorer.explore(RUN_MISC, mcfgs)
+    sched.absorb(res, "independent-records-and-mass-expiry", RUN_MISC, outm, mcfgs)
+    sched.debug_pass(res, "independent-records-and-mass-expiry", RUN_MISC, mcfgs, every=1)
     ccfgs = concurrent_configs()
     outc = explorer.explore(RUN_CONC, ccfgs)
     sched.absorb(res, "concurrent-dispatches", RUN_CONC, outc, ccfgs)
@@ -1292,7 +1386,10 @@ def run(tier: str, only=None) -> core.Result:
         "every step count and membership follow the map.  Near-miss ids: 14 forms of a live id (trailing LF / CRLF / blank / tab / NBSP / "
         "U+2028, leading or surrounding blanks, upper-cased, NUL appended, a character dropped, doubled, as bytes) x get / update / "
         "delete / ping / initialize / unknown method with that id, at once and after 9.5 s: nothing is found, refreshed, deleted or "
-        "created, and the live session still expires by its own idle time"
+        "created, and the live session still expires by its own idle time.  Records: initialize without clientInfo / capabilities twice "
+        "on one handler, once on another, once with clientInfo; writing into one record's client_info / metadata in place leaves the "
+        "other records and a later handler's initialize as they were.  One sweep over 1 / 19 / 20 / 21 / 30 / 100 / 1000 expired and 2 "
+        "fresh sessions removes exactly the expired ones - also with the library's logging at DEBUG"
     )
     res.assumptions = [
         "two ProtocolHandler objects built with the same arguments are independent servers: a session created through one is "
